@@ -22,7 +22,7 @@ PROPS = {
         trusted=MATCH_TRUSTED,
         assumptions=["Go map iteration order is modelled as list order after the D10 repair (sorted pattern keys)"],
         runs=[dict(component="match", require="Corr.MatchCorr", require_vo="Corr/MatchCorr.vo",
-                   n=dict(quick=2400, thorough=32000), shard=700,
+                   n=dict(quick=2400, thorough=120000), shard=700,
                    evals=dict(M="mc_mismatches", V="c01_violations", NT="c01_nontrivial"),
                    counts=("NT",))],
     ),
@@ -34,7 +34,7 @@ PROPS = {
         trusted=MATCH_TRUSTED,
         assumptions=["arrays are sets; repeated variables take scalar values (C02's quantifier)"],
         runs=[dict(component="match", require="Corr.MatchCorr", require_vo="Corr/MatchCorr.vo",
-                   n=dict(quick=2400, thorough=32000), shard=700, opts=dict(mode="c02"),
+                   n=dict(quick=2400, thorough=120000), shard=700, opts=dict(mode="c02"),
                    evals=dict(M="mc_mismatches", V="c02_violations", NT="c02_nontrivial", NL="c02_linear_count"),
                    counts=("NT", "NL"))],
     ),
@@ -49,7 +49,7 @@ PROPS = {
                                  "(race detector on the schedules that happen), not proved (partial)"],
         assumptions=["an order oracle is a deterministic function of the list it permutes"],
         runs=[dict(component="match", require="Corr.MatchCorr", require_vo="Corr/MatchCorr.vo",
-                   n=dict(quick=2400, thorough=32000), shard=700, opts=dict(mode="c03"),
+                   n=dict(quick=2400, thorough=120000), shard=700, opts=dict(mode="c03"),
                    evals=dict(M="mc_mismatches", V="c03_violations")),
               dict(component="matchconc", require="Corr.MatchCorr", require_vo="Corr/MatchCorr.vo", race=True,
                    n=dict(quick=150, thorough=3000), shard=700,
@@ -66,7 +66,7 @@ ENGINE_TRUSTED = [
     "goja (evaluation of the rendered programs), encoding/json; error texts normalised to one token; traces not modelled",
 ]
 
-def step_run(mode, M, V, NT=None, n=(1800, 24000), extra=None):
+def step_run(mode, M, V, NT=None, n=(1800, 80000), extra=None):
     evals = dict(M=M, V=V)
     counts = ()
     if NT:
@@ -77,7 +77,7 @@ def step_run(mode, M, V, NT=None, n=(1800, 24000), extra=None):
     return dict(component="step", require="Corr.StepCorr", require_vo="Corr/StepCorr.vo",
                 n=dict(quick=n[0], thorough=n[1]), shard=150, opts=dict(mode=mode), evals=evals, counts=counts)
 
-def walk_run(mode, M, V, NT=None, n=(480, 8000), extra=None):
+def walk_run(mode, M, V, NT=None, n=(480, 24000), extra=None):
     evals = dict(M=M, V=V)
     counts = ()
     if NT:
@@ -136,7 +136,7 @@ PROPS.update({
         runs=[step_run("c07", "c07_step_mismatches", "c07_step_violations"),
               walk_run("c07", "c07_walk_mismatches", "c07_walk_violations", "c07_nontrivial"),
               dict(component="total", require="Corr.TotalCorr", require_vo="Corr/TotalCorr.vo",
-                   n=dict(quick=400, thorough=6000), shard=2000, opts=dict(mode="c07"),
+                   n=dict(quick=400, thorough=20000), shard=2000, opts=dict(mode="c07"),
                    evals=dict(M="total_no_mismatches", V="total_violations"))],
     ),
     "C08": dict(
@@ -147,7 +147,7 @@ PROPS.update({
         runs=[step_run("c08", "c08_step_violations", "c08_step_violations"),
               walk_run("c08", "c08_walk_violations", "c08_walk_violations", "c08_nontrivial"),
               dict(component="funcexec", require="Corr.FuncExecCorr", require_vo="Corr/FuncExecCorr.vo",
-                   n=dict(quick=1500, thorough=20000), shard=500, opts=dict(mode="c08"),
+                   n=dict(quick=1500, thorough=60000), shard=500, opts=dict(mode="c08"),
                    evals=dict(M="fexec_mismatches", V="fexec_c08_violations"))],
     ),
     "C18": dict(
@@ -158,10 +158,10 @@ PROPS.update({
              "permanent binding moved through an action node or a guarded branch.",
         assumptions=["an action that returns null (no bindings at all) is outside the property's 'returns bindings'"],
         runs=[step_run("c18", "no_mismatches", "c18_violations", "c18_nontrivial"),
-              dict(walk_run("c18", "no_mismatches", "c18_walk_violations", "c18_walk_nontrivial", n=(240, 4800)),
+              dict(walk_run("c18", "no_mismatches", "c18_walk_violations", "c18_walk_nontrivial", n=(240, 12000)),
                    opts=dict(mode="c18", cycles="1")),
               dict(component="funcexec", require="Corr.FuncExecCorr", require_vo="Corr/FuncExecCorr.vo",
-                   n=dict(quick=1500, thorough=20000), shard=500, opts=dict(mode="c18"),
+                   n=dict(quick=1500, thorough=60000), shard=500, opts=dict(mode="c18"),
                    evals=dict(M="fexec_mismatches", V="fexec_c18_violations", NT="fexec_c18_nontrivial"), counts=("NT",))],
     ),
 })
